@@ -233,6 +233,11 @@ def enc_entity(ent) -> dict:
     if cls == "Keydown":
         return {"interval": units(d["interval"]), "interval_counter": units(d["interval_counter"]),
                 "time_left": units(d["time_left"])}
+    for plug in PLUGINS:
+        f = getattr(plug, "enc_entity", None)
+        r = f(ent) if f is not None else None
+        if r is not None:
+            return r
     raise KeyError(cls)
 
 
@@ -241,8 +246,31 @@ MODELLED = {"BuffSkillComponent", "AttackSkillComponent", "DOTEmittingAttackSkil
             "TriggableBuffSkillComponent", "KeydownSkillComponent"}
 
 
+PLUGINS: list = []
+
+
+def _load_plugins():
+    """part models: harness/complib_<part>.py modules with CLASSES (set of component class names),
+    params_of(comp, state) -> dict and optionally enc_entity(ent) / enc_view(value) returning None when
+    not theirs; the matching Lean side is Simaple/Model/DrvComponent<Part>.lean"""
+    import importlib
+    import pathlib
+    for f in sorted(pathlib.Path(__file__).parent.glob("complib_*.py")):
+        PLUGINS.append(importlib.import_module(f.stem))
+
+
+def all_modelled() -> set:
+    out = set(MODELLED)
+    for plug in PLUGINS:
+        out |= set(plug.CLASSES)
+    return out
+
+
 def params_of(comp, state) -> dict:
     cls = type(comp).__name__
+    for plug in PLUGINS:
+        if cls in plug.CLASSES:
+            return plug.params_of(comp, state)
     dyn = state.dynamics.stat
     p = {"cd_eff": units(dyn.calculate_cooldown(comp.cooldown_duration)), "delay": units(comp.delay),
          "disable_validity": bool(comp.disable_validity)}
@@ -289,14 +317,15 @@ def enc_revents(comp, events) -> list:
             out.append(["delayed", units(payload["time"])])
         elif tag == Tag.DAMAGE:
             if payload.get("modifier") != default_modifier:
-                raise KeyError("non-default modifier")
-            out.append(["dealt", ratq(payload["damage"]), ratq(payload["hit"])])
+                out.append(["dealt_mod", ratq(payload["damage"]), ratq(payload["hit"]), canon(payload.get("modifier"))])
+            else:
+                out.append(["dealt", ratq(payload["damage"]), ratq(payload["hit"])])
         elif tag == Tag.KEYDOWN_END:
             out.append(["keydown_end"])
         elif tag == Tag.MOB and e["method"] == "add_dot":
             out.append(["add_dot", ratq(payload["damage"]), units(payload["lasting_time"])])
         else:
-            raise KeyError(f"event tag {tag}")
+            out.append(["custom", tag or e.get("method") or "", canon(payload)])
     return out
 
 
@@ -312,6 +341,11 @@ def enc_view(value):
         return {"time_left": units(value.time_left), "running": value.running}
     if name == "Stat" or value is None:
         return value is not None         # the `buff` view: switched on or not (the block itself is a constant)
+    for plug in PLUGINS:
+        f = getattr(plug, "enc_view", None)
+        r = f(value) if f is not None else None
+        if r is not None:
+            return r
     raise KeyError(name)
 
 
@@ -320,7 +354,7 @@ def model_request(call) -> Optional[tuple[dict, Any]]:
     None if the class/method is not modelled; raises OffGrid if a time is off the 2^-10 ms grid"""
     comp, method, args = call["owner"], call["method"], call["args"]
     cls = type(comp).__name__
-    if cls not in MODELLED or method == "info":
+    if cls not in all_modelled() or method == "info":
         return None
     state = args[-1]
     params = params_of(comp, state)
@@ -348,7 +382,7 @@ def harvest_model_requests(cmds, job, variant, per_key=12, views=True):
                 eval_views(eng)
     for _sig, call in hv.calls.items():
         cls = type(call["owner"]).__name__
-        if cls not in MODELLED:
+        if cls not in all_modelled():
             stats["unmodelled_calls"] += 1
             stats["unmodelled_classes"][cls] = stats["unmodelled_classes"].get(cls, 0) + 1
             continue
@@ -378,3 +412,6 @@ def merge_stats(total: dict, part: dict):
                 slot[kk] = slot.get(kk, 0) + vv
         else:
             total[k] = total.get(k, 0) + v
+
+
+_load_plugins()
